@@ -1,64 +1,66 @@
-//! C03 obligations: `Array::filter_map_to` (per-element function application
-//! for [*] calls): kept results in order, absent results dropped, declared
-//! element type.
+//! C03 obligations: `Array::filter_map_to` (per-element application of a function
+//! whose first argument uses [*]): the function is applied exactly once per
+//! element, in element order; the results that are present are kept in order,
+//! absent results are dropped; the result has the declared element type.
 use super::super::*;
+use super::common::{array_borrowed, array_owned};
+use std::cell::Cell;
 
 fn filter_map<const N: usize, const BORROWED: bool>() {
     let xs: [i64; N] = kani::any();
+    let ys: [i64; N] = kani::any();
     let keep: [bool; N] = kani::any();
-    let mut v = Vec::with_capacity(N);
-    let mut i = 0;
-    while i < N {
-        kani::assume(xs[i] != i64::MAX);
-        v.push(LhsValue::Int(xs[i]));
-        i += 1;
-    }
-    let src = Array::try_from_vec(Type::Int, v).unwrap();
-    // f keeps element x iff keep[position of x]; positions are recovered from a side table
-    let table = xs;
-    let f = move |val: LhsValue<'_>| -> Option<LhsValue<'_>> {
-        match val {
-            LhsValue::Int(x) => {
-                let mut k = 0;
-                let mut kept = false;
-                while k < N {
-                    if table[k] == x && keep[k] {
-                        kept = true;
-                    }
-                    k += 1;
-                }
-                if kept { Some(LhsValue::Int(x + 1)) } else { None }
-            }
-            _ => None,
+    let vals: [LhsValue<'static>; N] = std::array::from_fn(|i| LhsValue::Int(xs[i]));
+    let src = if BORROWED {
+        array_borrowed(Type::Int, &vals[..])
+    } else {
+        let mut v = Vec::with_capacity(N);
+        let mut i = 0;
+        while i < N {
+            v.push(LhsValue::Int(xs[i]));
+            i += 1;
         }
+        array_owned(Type::Int, v)
     };
-    // make "x is kept" a function of the value so that duplicates are consistent
-    let mut i = 0;
-    while i < N {
-        let mut j = 0;
-        while j < N {
-            if xs[i] == xs[j] {
-                kani::assume(keep[i] == keep[j]);
-            }
-            j += 1;
+    // the k-th call must receive element k; it answers ys[k] or "absent"
+    let calls = Cell::new(0usize);
+    let in_order = Cell::new(true);
+    let f = |val: LhsValue<'_>| -> Option<LhsValue<'_>> {
+        let k = calls.get();
+        calls.set(k + 1);
+        let ok = k < N && matches!(val, LhsValue::Int(x) if x == xs[k]);
+        if !ok {
+            in_order.set(false);
         }
-        i += 1;
-    }
-    let out = if BORROWED { src.as_ref().filter_map_to(Type::Int, f) } else { src.clone().filter_map_to(Type::Int, f) };
+        std::mem::forget(val);
+        if k < N && keep[k] { Some(LhsValue::Int(ys[k])) } else { None }
+    };
+    let out = src.filter_map_to(Type::Int, f);
+    assert!(calls.get() == N, "the function is applied exactly once per element");
+    assert!(in_order.get(), "the k-th application receives element k");
     assert!(out.value_type() == Type::Int, "the result has the declared element type");
     let mut w = 0;
     let mut i = 0;
     while i < N {
         if keep[i] {
-            assert!(matches!(out.get(w), Some(LhsValue::Int(v)) if *v == xs[i] + 1), "kept results appear in element order");
+            match out.get(w) {
+                Some(LhsValue::Int(v)) => {
+                    assert!(*v == ys[i], "kept results appear in element order");
+                }
+                _ => {
+                    assert!(false, "every present result is kept");
+                }
+            }
             w += 1;
         }
         i += 1;
     }
     assert!(out.len() == w, "elements whose result is absent are dropped, nothing else");
-    kani::cover!(N > 1 && w == 1);
+    kani::cover!(N > 1 && !keep[0] && keep[N - 1], "a non-trailing element is dropped");
+    kani::cover!(w == N, "nothing dropped");
+    kani::cover!(w == 0, "everything dropped");
     std::mem::forget(out);
-    std::mem::forget(src);
+    std::mem::forget(vals);
 }
 
 #[kani::proof]
@@ -77,4 +79,16 @@ fn array_filter_map_to__borrowed_n2() {
 #[kani::unwind(7)]
 fn array_filter_map_to__owned_n3() {
     filter_map::<3, false>()
+}
+
+#[kani::proof]
+#[kani::unwind(7)]
+fn array_filter_map_to__borrowed_n3() {
+    filter_map::<3, true>()
+}
+
+#[kani::proof]
+#[kani::unwind(4)]
+fn array_filter_map_to__owned_n0() {
+    filter_map::<0, false>()
 }
